@@ -319,6 +319,27 @@ pub fn gen_motif(m: &Model, rng: &mut Rng, home: &[Lid]) -> Option<Vec<Op>> {
     Some(ops)
 }
 
+/// redundant declarations: an element declares two more prefixes for a namespace that is bound
+/// in its scope already, then the tree is de-duplicated
+pub fn gen_redundant_decl_motif(m: &Model, rng: &mut Rng, home: &[Lid]) -> Option<Vec<Op>> {
+    let p = Picker::new(m, home, 50);
+    let e = p.of(rng, |l| m.k(l) == K::Elem && m.n(l).parent.map_or(false, |q| m.k(q) == K::Elem))?;
+    let bound = scope_bound_uris(m, m.n(e).parent.unwrap());
+    let uri = rng.pick_opt(&bound)?.clone();
+    let mut ops = vec![];
+    let mut prefixes: Vec<&str> = PREFIXES.to_vec();
+    let i = rng.below(prefixes.len());
+    let first = prefixes.remove(i);
+    let second = *rng.pick(&prefixes);
+    ops.push(Op::NsInsert { e, prefix: first.to_string(), uri: uri.clone() });
+    ops.push(if rng.pct(50) { Op::SetNamespace { e, prefix: second.to_string(), uri: uri.clone() } } else { Op::NsInsert { e, prefix: second.to_string(), uri: uri.clone() } });
+    if rng.pct(30) {
+        ops.push(Op::NsInsert { e, prefix: String::new(), uri });
+    }
+    ops.push(Op::DeduplicateNamespaces { n: if rng.pct(70) { m.root_of(e) } else { m.n(e).parent.unwrap() } });
+    Some(ops)
+}
+
 /// another client builds text from pieces: consolidation off, two or three text nodes next to each
 /// other, consolidation on again — the store then holds adjacent text nodes while consolidation
 /// is on, and every later call meets that state
@@ -588,9 +609,18 @@ fn try_gen_op(m: &Model, rng: &mut Rng, prof: &Profile, home: &[Lid]) -> Option<
             let e = p.kind(rng, K::Elem)?;
             Some(if rng.pct(60) {
                 let name = attr_key(m, e, rng);
+                // now and then an update that writes the value the key already has
+                let same_value = m.n(e).attrs.iter().find_map(|a| match &m.n(*a).kind {
+                    crate::model::Kind::Attr(n, v) if *n == name => Some(v.clone()),
+                    _ => None,
+                });
                 // (leading / trailing / doubled spaces: an xml:id with such a value does not survive
                 // a reparse, so C10's profile leaves them out)
                 let value = if rng.pct(10) && !prof.representable_ns_only { rng.pick_str(&[" v", "v ", "a  b", " a  b "]).to_string() } else { rng.pick_str(&ATTR_VALUES[..8]).to_string() };
+                let value = match same_value {
+                    Some(v) if rng.pct(20) => v,
+                    _ => value,
+                };
                 if rng.pct(12) {
                     // 2-4 updates through one view object; biased to keys that exist, then new ones
                     let mut items = vec![(name, if rng.pct(80) { Some(value) } else { None })];
